@@ -20,6 +20,10 @@ THEOREMS = [
     "Ural.Props.C15.infer_step_fixed",
     "Ural.Props.C15.infer_is_iterated_step",
     "Ural.Props.C15.infer_never_longer",
+    "Ural.Props.C15.infer_reads_cleaned",
+    "Ural.Props.C15.cleanedUrl_sublist",
+    "Ural.Props.C15.cleanedUrl_eq_self",
+    "Ural.Props.C15.inferTarget_embedded",
     "Ural.Props.C15.domainSplit_suffix",
     "Ural.Props.C15.redirectSearch_embedded",
     "Ural.Props.C15.infer_target_embedded",
@@ -39,7 +43,9 @@ RULE = (
     "bare, /url?q=, youtube redirect, ...) x 31 targets (absolute http(s), scheme-less, '/x', '/?u=/x', '//b.com/x', dot segments, "
     ";params, brackets, stray %, invalid UTF-8 escapes, TAB/CR/LF/NUL, IPv6 / IPvFuture / malformed bracketed hosts, non-ASCII, empty, self-referential) x 0-2 (quick) / 0-3 (thorough) extra levels of percent-encoding, "
     "chains nested 1-4 deep with matching levels of encoding, AMP/Marfeel cache hosts x 7 tails x case variants, then seeded random "
-    "compositions; kind=urljoin cases compare the hand-written urljoin with CPython's on base x reference pairs. "
+    "compositions; a tenth of the grid and of the random urls is also wrapped in / sprinkled with whitespace and control characters "
+    "(infer_redirection looks for its hints in the url cleaned as every url function cleans its input, and returns the argument itself when "
+    "it finds none); kind=urljoin cases compare the hand-written urljoin with CPython's on base x reference pairs. "
     "Non-trivial = the recursive result differs from the input, or a target was found and rejected by the length guard, "
     "or the url needs more than one step. Distinct = distinct url."
 )
@@ -63,6 +69,9 @@ ASSUMPTIONS = [
     "strings contain no lone surrogates; non-ASCII characters come from the plain alphabet of DESIGN.md §4 plus U+0130, U+0131, U+017F, U+212A",
     "'embedded target' is read generously by the oracle: unquote() of the value of ANY key=value item of the url (not only of the listed keys), "
     "as is, prefixed by https://, or urljoin-ed to the url (for a url without protocol also: to http://+url, minus that prefix), or https:// + what follows a cache-host match",
+    "'the input' a target is embedded in is the argument as given, or as every url function of the library reads it: control characters "
+    "[\\x00-\\x1f\\x7f-\\x9f] removed, then stripped (since FX-C04-dcfec1d infer_redirection searches the cleaned string; before it searched the raw one: "
+    "both are accepted); 'returns the input' is the argument itself, unchanged — the cleaned string is NOT an accepted result",
 ]
 UNPROVED = (
     "nothing of the statement is left to the oracle alone for the model; urljoin/unquote/urlsplit are modelled-not-verified prelude "
@@ -159,7 +168,30 @@ CORPUS = [
     "http://a.com/xxxxxxxx?u=//[b/",  # ... or on the target
     "http://a.com/?u=" + "%2F" * 40,
     "localhost//a?u=/x",  # D51: no longer taken for a url with a protocol
+    # FX-C04-dcfec1d: the hints are searched in the cleaned url, the argument comes back when none is followed
+    "\x00http://a.com/x?redirect=/z",  # was joined to 'http://' + the raw string -> 'http/z'
+    " \t http://a.com/x?redirect=/z \n",
+    "http://a.com/x?redi\x00rect=/z",
+    " url=http://b.com/x",  # '^' alternative behind a blank
+    "http://a.com/?url=https:// ",  # empty absolute target in front of a blank: not a target
+    "http://x.cdn.ampproject.org/c/ ",  # empty cache tail in front of a blank
+    " " * 20 + "http://x&u=%2Fx@a.com/p",  # the length guard must not count what the cleaning removes
+    "\x00\x00\x00http://x&u=/p",
+    " http://a.com/?x=1 ",  # nothing found: the argument itself, not its cleaned form
+    "\x7f",
+    "  ",
 ]
+WRAPS = [(" ", ""), ("", " "), ("\x00", ""), ("\t", "\r\n"), ("\xa0", "\u3000"), ("\x85 ", " \x9f"), ("  \x1f", "\x7f")]
+
+
+def wrap(u, i):
+    """`u` inside whitespace / control characters (and, every other time, one control character inside)"""
+    a, b = WRAPS[i % len(WRAPS)]
+    if i % 2 and len(u) > 2:
+        k = (i * 7) % (len(u) - 1) + 1
+        u = u[:k] + "\x00\x0b\x9f"[i % 3] + u[k:]
+    return a + u + b
+
 
 
 def nest(t, depth):
@@ -185,10 +217,14 @@ def cases(rng, tier):
         yield {"url": u}
     # the grid of the quantifier
     max_extra = 1 if tier == "quick" else 3
+    wi = 0
     for pl in PLACEMENTS:
         for k in KEYS:
             for t in TARGETS:
                 yield {"url": pl % (k, nest(t, 1))}
+                wi += 1
+                if wi % 10 == 0:
+                    yield {"url": wrap(pl % (k, nest(t, 1)), wi // 10)}
                 if k in GENUINE or tier != "quick":
                     for d in [0] + list(range(2, max_extra + 2)):
                         if tier == "quick" and d > 1:
@@ -201,6 +237,8 @@ def cases(rng, tier):
         for tail in CACHE_TAILS:
             yield {"url": "https://" + h + tail}
             yield {"url": h.upper() + tail}
+            wi += 1
+            yield {"url": wrap("https://" + h + tail, wi)}
     # nested chains with matching levels of percent-encoding
     finals = ["http://z.com/end", "/end", "z.com/end", "https://z.com/?a=b&c=d", "//z.com/e", ""]
     pls = [PLACEMENTS[0], PLACEMENTS[3], PLACEMENTS[12], PLACEMENTS[11]]
@@ -226,7 +264,11 @@ def cases(rng, tier):
     alphabet = "au=&?/%:.#2Fq@x[ é"
     for _ in range(n):
         r = rng.random()
-        if r < 0.5:
+        if rng.random() < 0.1:
+            d = rng.randint(1, 3)
+            yield {"url": wrap(chain(None, d, [rng.choice(PLACEMENTS) for _ in range(d)], [rng.choice(KEYS) for _ in range(d)],
+                                     rng.choice(TARGETS + finals)), rng.randint(0, 1000))}
+        elif r < 0.5:
             d = rng.randint(1, 4)
             yield {"url": chain(None, d, [rng.choice(PLACEMENTS) for _ in range(d)], [rng.choice(KEYS) for _ in range(d)],
                                 rng.choice(TARGETS + finals))}
@@ -287,9 +329,25 @@ _HAS_PROTOCOL = _re.compile(r"(?:[a-zA-Z]{1,64}:)?//")
 _CACHE = _re.compile(r"\.ampproject\.org/[cv]/(?:s/)?|bc\.marfeelcache\.com/amp/|bc\.marfeel\.com/", _re.I)
 
 
+_CTRL = _re.compile("[\x00-\x1f\x7f-\x9f]")
+
+
+def cleaned(u):
+    """the argument as every url function of the library reads it"""
+    return _CTRL.sub("", u).strip()
+
+
 def candidates(u):
-    """everything the property allows one step to return"""
-    c = {u}
+    """everything the property allows one step to return: the argument itself, or a target embedded in it —
+    in the string as given or as the library reads it (cleaned)"""
+    c = {u} | _embedded(u)
+    if cleaned(u) != u:
+        c |= _embedded(cleaned(u))
+    return c
+
+
+def _embedded(u):
+    c = set()
     for m in _CACHE.finditer(u):
         if u[m.end():]:
             c.add("https://" + u[m.end():])
@@ -382,6 +440,8 @@ def classify(case):
         labs.append("outcome=followed steps=%d" % min(n, 6))
     if _CACHE.search(u):
         labs.append("cache-host")
+    if cleaned(u) != u:
+        labs.append("unclean-argument")
     if "%25" in u:
         labs.append("encoding>=2")
     elif "%" in u:
